@@ -478,6 +478,41 @@ def check_call_args(facts, run, prop, table, cfg):
     return n
 
 
+class _Plain(taint.Policy):
+    implicit = False
+
+
+def check_independent(facts, run, prop, table, cfg):
+    """G11: the value written through parameter `param` does not depend on its previous value."""
+    ents = [e for e in table.get("independent", []) if prop in e["props"]]
+    if not ents:
+        return 0
+    eng = taint.Engine(facts, _Plain())
+    n = 0
+    for ent in ents:
+        matched = [fn for fn in facts.fns.values() if re.fullmatch(ent["fn"], norm_name(fn["name"]))]
+        if not matched:
+            run.oblige(ok=False)
+            run.add(Finding("G0", ent["fn"], "gates: anchor function %s not found" % ent["fn"], config=cfg, prop=prop))
+        for fn in matched:
+            n += 1
+            summ = eng.summary(fn)
+            dep = set()
+            for (i, path), labels in summ.out.items():
+                if i != ent["param"]:
+                    continue
+                for a in labels:
+                    if isinstance(a, tuple) and len(a) == 3 and a[0] == "m" and a[1] == ent["param"]:
+                        dep.add(path)
+            run.oblige(ok=not dep)
+            if dep:
+                run.add(Finding("G11", norm_name(fn["name"]),
+                                "gates G11: the result of %s (%s:%s) depends on the previous value of its output operand (fields %s) -- %s" % (
+                                    fn["name"], fn["file"], fn["line"], sorted(dep, key=str)[:4], ent["why"]),
+                                config=cfg, site="%s:%s" % (fn["file"], fn["line"]), prop=prop))
+    return n
+
+
 def run_gates(facts, run, prop):
     table = load_table()
     eng = GateEngine(facts, GatePolicy(facts))
@@ -530,6 +565,7 @@ def run_gates(facts, run, prop):
                                         fn["name"], fn["file"], fn["line"], bad[0], g["why"]),
                                     config=cfg, site="%s:%s" % (fn["file"], fn["line"]), prop=prop))
     n_ca = check_call_args(facts, run, prop, table, cfg)
+    n_ca += check_independent(facts, run, prop, table, cfg)
     if prop == "C16":
         from . import lmsstate
         lmsstate.run_lmsstate(facts, run, prop)
